@@ -58,6 +58,39 @@ def iterations_over(stmts, var):
     return out
 
 
+def total_dispatch(body):
+    def assigned(stmts, name):
+        for st in stmts:
+            if isinstance(st, (ast.Assign, ast.AugAssign, ast.AnnAssign)):
+                tg = st.targets if isinstance(st, ast.Assign) else [st.target]
+                if any(isinstance(t, ast.Name) and t.id == name for t in tg):
+                    return True
+            if isinstance(st, ast.If) and assigned(st.body, name) and assigned(st.orelse, name):
+                return True
+            if isinstance(st, ast.Try) and assigned(st.body + st.orelse, name) and all(assigned(h.body, name) or exits(h.body, []) for h in st.handlers):
+                return True
+            if isinstance(st, (ast.Return, ast.Raise)):
+                return True      # paths that leave earlier do not reach the return in question
+        return False
+
+    def exits(stmts, before):
+        for i, st in enumerate(stmts):
+            if isinstance(st, ast.Raise):
+                return True
+            if isinstance(st, ast.Return):
+                if st.value is None:
+                    return False
+                if isinstance(st.value, ast.Name) and not assigned(before + stmts[:i], st.value.id):
+                    return False
+                return True
+            if isinstance(st, ast.If) and exits(st.body, before + stmts[:i]) and exits(st.orelse, before + stmts[:i]):
+                return True
+            if isinstance(st, ast.Try) and exits(st.body + st.orelse, before + stmts[:i]) and all(exits(h.body, before + stmts[:i]) for h in st.handlers):
+                return True
+        return False
+    return exits(list(body), [])
+
+
 def class_state_stores(f, model):
     """stores (assign / augmented assign / delete / setattr / delattr) whose target is an attribute of a class object:
     ``cls.x``, ``type(self).x``, ``self.__class__.x``, ``<RepoClass>.x``; and global / nonlocal declarations"""
@@ -205,10 +238,9 @@ def check(ctx, report):
         if not chain:
             report.add('C14.R3', f.construct + '@dispatch', 'no dispatch chain')
             continue
-        node = chain[0]
-        while len(node.orelse) == 1 and isinstance(node.orelse[0], ast.If):
-            node = node.orelse[0]
-        if not node.orelse:
+        # total: every path through the function ends in ``return <value>`` (or a raise), and a returned local is assigned on
+        # every path that reaches the return - whether the dispatch is an if / elif / else chain or a row of guard clauses
+        if not total_dispatch(f.node.body):
             report.add('C14.R3', f.construct + '@default', 'dispatch chain has no unconditional default branch: some value type has no rendering')
     bm = model.modules.get('cryptoparser.common.base')
     report.count('C14.R3')
@@ -219,7 +251,21 @@ def check(ctx, report):
     if jt is not None:
         report.count('C14.R3')
         dcs = [n for n in ast.walk(jt.node) if isinstance(n, (ast.ListComp, ast.DictComp)) and 'items()' in ast.unparse(n)]
-        ok = any('key.name' in ast.unparse(n) and '_json_result(key)' in ast.unparse(n) for n in dcs)
+
+        def key_text(n):
+            # the comprehension, with the bodies of the Serializable helpers it calls appended (key mapping moved into a helper)
+            txt = ast.unparse(n)
+            for c2 in ast.walk(n):
+                if isinstance(c2, ast.Call) and isinstance(c2.func, ast.Attribute) and c2.func.attr in ser.methods and c2.func.attr != jt.name:
+                    h = ser.methods[c2.func.attr].node
+                    params = [a.arg for a in h.args.args if a.arg not in ('self', 'cls')]
+                    body = ast.unparse(h)
+                    if params and c2.args and isinstance(c2.args[0], ast.Name):
+                        import re as _re
+                        body = _re.sub(r'\b%s\b' % _re.escape(params[0]), c2.args[0].id, body)
+                    txt += ' ' + body
+            return txt
+        ok = any('key.name' in key_text(n) and '_json_result(key)' in key_text(n) for n in dcs)
         if not ok:
             report.add('C14.R3', jt.construct + '@keys', 'dictionary keys are not mapped through key.name / _json_result on every branch')
     # ---- R3b: a time delta is rendered whole (``.seconds`` alone drops the days, ``.days`` alone drops the rest)
